@@ -21,7 +21,7 @@ pub fn run(tier: Tier, seed: u64) -> i32 {
     let table: std::sync::Arc<Vec<u128>> = std::sync::Arc::new(
         (MIN_TICK_INDEX..=MAX_TICK_INDEX).map(sqrt_price_from_tick_index).collect(),
     );
-    let interior: u64 = tier.pick(20_000_000, 2_000_000_000);
+    let interior: u64 = tier.pick(80_000_000, 2_000_000_000);
     let t2 = table.clone();
     let acc = run_shards(n_shards, seed, move |shard, s| {
         let table = &t2;
